@@ -405,6 +405,75 @@ def check_plumbing(ctx, R="C17.plumbing"):
     else:
         ctx.finding(R, vr.node, "VisibilityRequirement occluders", "VisibilityRequirement no longer excludes source/target from the occluders or no longer filters by the sampled `occluding`")
 
+    # the candidates handed to the (non-)visibility requirements when the scenario is compiled: `occluding` may be random, so the
+    # compile-time filter must keep every object whose `occluding` needs sampling or is true
+    sc = model.func("scenic.core.scenarios", "Scenario._makeRequirements") if model.try_func("scenic.core.scenarios", "Scenario._makeRequirements") else None
+    if sc is None:
+        m_ = model.module("scenic.core.scenarios")
+        sc = next((f for q, f in m_.functions.items() if any(isinstance(c, ast.Call) and (dotted(c.func) or "").endswith("VisibilityRequirement") for c in walk_local(f))), None)
+    if sc is None:
+        raise AnalysisError("anchor not found: the function of scenarios.py that creates VisibilityRequirement")
+    n_req = 0
+    for c in walk_local(sc):
+        if not (isinstance(c, ast.Call) and (dotted(c.func) or "").split(".")[-1] in ("VisibilityRequirement", "NonVisibilityRequirement") and len(c.args) >= 3):
+            continue
+        n_req += 1
+        arg = c.args[2]
+        if isinstance(arg, ast.Name):
+            defs = [a for a in walk_local(sc) if isinstance(a, ast.Assign) and len(a.targets) == 1 and isinstance(a.targets[0], ast.Name) and a.targets[0].id == arg.id]
+            if len(defs) != 1:
+                raise AnalysisError(f"shape not recognised: definitions of `{arg.id}` in {sc.name}")
+            arg = defs[0].value
+        while isinstance(arg, ast.Call) and dotted(arg.func) in ("tuple", "list") and len(arg.args) == 1:
+            arg = arg.args[0]
+        pred = var = None
+        if isinstance(arg, ast.Attribute):
+            ctx.ok(R, c, f"{dotted(c.func)}: every object `{unparse(arg)}` is a candidate occluder")
+            continue
+        if isinstance(arg, ast.Call) and dotted(arg.func) == "filter" and len(arg.args) == 2 and isinstance(arg.args[0], ast.Lambda) and len(arg.args[0].args.args) == 1:
+            pred, var = arg.args[0].body, arg.args[0].args.args[0].arg
+        elif isinstance(arg, (ast.GeneratorExp, ast.ListComp)) and len(arg.generators) == 1 and isinstance(arg.generators[0].target, ast.Name):
+            g = arg.generators[0]
+            var = g.target.id
+            pred = ast.BoolOp(op=ast.And(), values=list(g.ifs)) if len(g.ifs) > 1 else (g.ifs[0] if g.ifs else ast.Constant(True))
+        else:
+            raise AnalysisError(f"shape not recognised: candidate occluders `{norm_text(arg, 80)}`")
+
+        def ev(e, A, B):
+            """value of the predicate for an object whose `occluding` needs sampling (A) / is true when it does not (B)"""
+            if isinstance(e, ast.Constant):
+                return bool(e.value)
+            if isinstance(e, ast.BoolOp):
+                vs = [ev(v, A, B) for v in e.values]
+                return all(vs) if isinstance(e.op, ast.And) else any(vs)
+            if isinstance(e, ast.UnaryOp) and isinstance(e.op, ast.Not):
+                return not ev(e.operand, A, B)
+            if isinstance(e, ast.Attribute) and isinstance(e.value, ast.Name) and e.value.id == var and e.attr == "occluding":
+                return True if A else B
+            if isinstance(e, ast.Call) and (dotted(e.func) or "").split(".")[-1] in ("needsSampling", "isLazy", "needsLazyEvaluation") and len(e.args) == 1 and unparse(e.args[0]) == f"{var}.occluding":
+                return A
+            if isinstance(e, ast.Compare) and len(e.ops) == 1 and unparse(e.left) == f"{var}.occluding" and isinstance(e.comparators[0], ast.Constant) and isinstance(e.comparators[0].value, bool):
+                k, op = e.comparators[0].value, e.ops[0]
+                same = (B == k) and not A  # a random value is neither True nor False
+                if isinstance(op, (ast.Is, ast.Eq)):
+                    return same
+                if isinstance(op, (ast.IsNot, ast.NotEq)):
+                    return not same
+            raise AnalysisError(f"shape not recognised: term `{unparse(e)}` of the candidate-occluder filter")
+
+        lost = [d for (A, B, d) in ((True, False, "a random `occluding` (e.g. `with occluding Options([True, False])`)"), (False, True, "`occluding` True")) if not ev(pred, A, B)]
+        if lost:
+            ctx.finding(
+                R,
+                c,
+                f"{dotted(c.func)} candidate occluders drop {'random' if 'random' in lost[0] else 'true'} occluding",
+                f"{sc.name}: the candidate occluders of {dotted(c.func)} are filtered at compile time by `{unparse(pred)}`, which drops an object with {lost[0]}: "
+                f"when that object is sampled as occluding and hides the target, the scene is still accepted as 'visible'",
+            )
+        else:
+            ctx.ok(R, c, f"{dotted(c.func)}: compile-time filter `{unparse(pred)}` keeps random and true `occluding`")
+    ctx.floor(R, n_req, 2, "visibility requirements created by the scenario")
+
 
 def check(ctx):
     ctx.run(check_frames)
